@@ -398,8 +398,8 @@ def count_cases(ctx, trace_path, sample_every=499):
 
 def plans_for(ctx):
     if ctx.quick:
-        return ([("A", SCN_WHOLE, dict(MaxOps=4, MaxFail=1, MaxStmts=1), 1000),
-                 ("B", SCN_FRAC, dict(MaxOps=4, MaxFail=1, MaxStmts=1), 1500)], 160, 50)
+        return ([("A", SCN_WHOLE, dict(MaxOps=4, MaxFail=1, MaxStmts=1), 800),
+                 ("B", SCN_FRAC, dict(MaxOps=4, MaxFail=1, MaxStmts=1), 1200)], 130, 50)
     return ([("A", SCN_WHOLE, dict(MaxOps=6, MaxFail=1, MaxStmts=1), 12000),
              ("A2", SCN_WHOLE, dict(MaxOps=3, MaxFail=2, MaxStmts=2), 12000),
              ("B", SCN_FRAC, dict(MaxOps=5, MaxFail=1, MaxStmts=1), 12000),
